@@ -33,6 +33,8 @@ FLOORS = {"quick": {"grants": 20000, "advance_checks": 15000, "cancels_waiting":
 # floors for the situations added with the later rounds of seeded changes (evidence that they were really exercised)
 FLOORS["quick"].update({'priorityitem_puts': 3000, 'same_object_put_again': 1000})
 FLOORS["thorough"].update({'priorityitem_puts': 15000, 'same_object_put_again': 5000})
+FLOORS["quick"].update({'exact_amount_cases': 200, 'requests_kept_after_timeout': 2500})
+FLOORS["thorough"].update({'exact_amount_cases': 1000, 'requests_kept_after_timeout': 12500})
 GRID = [0, 0, 1, 1, 2, 3, 0.5]
 INF = float("inf")
 
